@@ -146,6 +146,22 @@ func RunHistory(c HCase) (res Result) {
 		stream := pat(1, 4096)
 		other := pat(2, 4096)
 		pos := 0
+		type kept struct {
+			got  []byte // the slice the library returned (kept, not copied)
+			want []byte
+			at   int
+		}
+		var returned []kept
+		defer func(name string) {
+			// a digest handed out earlier must not change when the hasher is used again
+			for _, k := range returned {
+				if !bytes.Equal(k.got, k.want) {
+					res.Violations = append(res.Violations, Violation{"C13", "ReturnedDigestStable",
+						fmt.Sprintf("%s: the digest returned by op %d was modified by later operations on the same hasher (history %v)", name, k.at, c.Hist)})
+					break
+				}
+			}
+		}(a.Name)
 		for i, op := range c.Hist {
 			switch op.Op {
 			case "Reset":
@@ -160,6 +176,7 @@ func RunHistory(c HCase) (res Result) {
 			case "SumHash":
 				got := h.SumHash()
 				res.Evals++
+				returned = append(returned, kept{got, a.Ref(stream[:op.Expect]), i})
 				if !bytes.Equal(got, a.Ref(stream[:op.Expect])) {
 					res.Violations = append(res.Violations, Violation{"C13", "StreamDigest",
 						fmt.Sprintf("%s: op %d SumHash is not the digest of the %d bytes written since the last reset (history %v)", a.Name, i, op.Expect, c.Hist)})
@@ -168,6 +185,7 @@ func RunHistory(c HCase) (res Result) {
 			case "ComputeHash":
 				got := h.ComputeHash(other[:op.K])
 				res.Evals++
+				returned = append(returned, kept{got, a.Ref(other[:op.K]), i})
 				if !bytes.Equal(got, a.Ref(other[:op.K])) {
 					res.Violations = append(res.Violations, Violation{"C13", "ComputeHashIndependent",
 						fmt.Sprintf("%s: op %d ComputeHash(%d bytes) is not the digest of its argument (history %v)", a.Name, i, op.K, c.Hist)})
